@@ -8,7 +8,7 @@ import os
 from ..model import REGEX, ENFA, FA_EPSILON
 from . import names
 from .common import site_of
-from .flow import (Oblig, calls, events, deps_of, arg_deps, SELF, P, result_locs, facts_on_path, has_fact,
+from .flow import (min_len as _min_len, Oblig, calls, events, deps_of, arg_deps, SELF, P, result_locs, facts_on_path, has_fact,
                    check_escapes)
 
 RO = "pyformlang.regular_expression.regex_objects"
@@ -293,59 +293,6 @@ def _len_guard(facts, base_txt, idx_txt, idx_av) -> bool:
         if lo is not None and lo >= need:
             return True
     return False
-
-
-def _is_seq(e, base_txt):
-    return ast.unparse(e) == base_txt
-
-
-def _is_len(e, base_txt):
-    return isinstance(e, ast.Call) and isinstance(e.func, ast.Name) and e.func.id == "len" and len(e.args) == 1 \
-        and _is_seq(e.args[0], base_txt)
-
-
-def _min_len(e, pol, base_txt):
-    """Lower bound on len(seq) implied by `e` evaluating to `pol` (None = nothing implied)."""
-    if isinstance(e, ast.UnaryOp) and isinstance(e.op, ast.Not):
-        return _min_len(e.operand, not pol, base_txt)
-    if isinstance(e, ast.BoolOp):
-        subs = [_min_len(v, pol, base_txt) for v in e.values]
-        conj = isinstance(e.op, ast.And) == pol      # `a and b` true / `a or b` false: every operand has that value
-        if conj:
-            known = [x for x in subs if x is not None]
-            return max(known) if known else None
-        return None if any(x is None for x in subs) else min(subs)
-    if _is_seq(e, base_txt) or _is_len(e, base_txt) or (
-            isinstance(e, ast.Call) and isinstance(e.func, ast.Name) and e.func.id == "bool" and len(e.args) == 1
-            and (_is_seq(e.args[0], base_txt) or _is_len(e.args[0], base_txt))):
-        return 1 if pol else None
-    if isinstance(e, ast.Compare) and len(e.ops) == 1:
-        l, op, r = e.left, e.ops[0], e.comparators[0]
-        empty = lambda x: isinstance(x, (ast.List, ast.Tuple)) and not x.elts   # noqa: E731
-        if (_is_seq(l, base_txt) and empty(r)) or (_is_seq(r, base_txt) and empty(l)):
-            if isinstance(op, ast.NotEq):
-                return 1 if pol else None
-            if isinstance(op, ast.Eq):
-                return None if pol else 1
-            return None
-        flip = {ast.Lt: ast.Gt, ast.Gt: ast.Lt, ast.LtE: ast.GtE, ast.GtE: ast.LtE, ast.Eq: ast.Eq, ast.NotEq: ast.NotEq}
-        if _is_len(r, base_txt) and isinstance(l, ast.Constant):
-            l, r, op = r, l, flip.get(type(op), type(None))()
-        if _is_len(l, base_txt) and isinstance(r, ast.Constant) and isinstance(r.value, int):
-            n = r.value
-            kind = type(op)
-            if not pol:
-                kind = {ast.Lt: ast.GtE, ast.GtE: ast.Lt, ast.Gt: ast.LtE, ast.LtE: ast.Gt, ast.Eq: ast.NotEq,
-                        ast.NotEq: ast.Eq}.get(kind)
-            if kind is ast.Gt:
-                return n + 1
-            if kind is ast.GtE:
-                return n
-            if kind is ast.Eq:
-                return n
-            if kind is ast.NotEq and n == 0:
-                return 1
-    return None
 
 
 def thompson_sequences(summ):
